@@ -12,11 +12,6 @@ Import ListNotations.
 Section Render.
 Open Scope N_scope.
 
-(* the number a digit string denotes, most significant digit first *)
-Definition dstep (base a c : N) : N := a * base + (c - 48).
-Definition digits_val (base : N) (s : list N) : N := fold_left (dstep base) s 0.
-Definition digit_of (base c : N) : Prop := 48 <= c /\ c < 48 + base.
-
 Lemma hexchar_small d : d < 10 -> hexchar d = 48 + d.
 Proof. intros H. unfold hexchar. apply N.ltb_lt in H. now rewrite H. Qed.
 
@@ -111,20 +106,6 @@ Definition final_name (x : Z) : list N :=
 (* builder.name on top of it *)
 Definition stmt_name (x idx : Z) : list N := b_name (final_name x) idx.
 
-Inductive name_shape : list N -> Prop :=
-| shape_byte b : b <> [] -> Forall (digit_of 2) b -> name_shape (95%N :: b)
-| shape_xrun d : d <> [] -> Forall (digit_of 10) d -> name_shape (120%N :: d)
-| shape_idx d : d <> [] -> Forall (digit_of 10) d -> name_shape (105%N :: d).
-
-(* what a name says *)
-Definition describes (nm : list N) (x idx : Z) : Prop :=
-  match nm with
-  | 95%N :: b => x = Z.of_N (digits_val 2 b)
-  | 120%N :: d => x = 2 ^ Z.of_N (digits_val 10 d) - 1
-  | 105%N :: d => idx = Z.of_N (digits_val 10 d)
-  | _ => False
-  end.
-
 Lemma name_byte_cases x : 0 <= x ->
   name_byte x = [] \/ exists b, name_byte x = 95%N :: b /\ b <> [] /\ Forall (digit_of 2) b /\ x = Z.of_N (digits_val 2 b).
 Proof.
@@ -181,12 +162,18 @@ Proof.
   rewrite H0, H1. now rewrite orb_true_r.
 Qed.
 
+Lemma dbl_class_first c s : c <> 100%N -> dbl_class (c :: s) = false.
+Proof.
+  intros H. destruct s as [|c2 [|c3 [|c4 r]]]; try reflexivity. cbn [dbl_class].
+  apply N.eqb_neq in H. now rewrite H.
+Qed.
+
 Lemma name_shape_legal nm : name_shape nm -> ident_ok nm = true /\ dbl_class nm = false.
 Proof.
-  intros [b Hb1 Hb2|d Hd1 Hd2|d Hd1 Hd2]; cbn [ident_ok dbl_class].
-  - rewrite (digits_idc 2 b) by (assumption || lia). split; reflexivity.
-  - rewrite (digits_idc 10 d) by (assumption || lia). split; reflexivity.
-  - rewrite (digits_idc 10 d) by (assumption || lia). split; reflexivity.
+  intros [b Hb1 Hb2|d Hd1 Hd2|d Hd1 Hd2]; (split; [cbn [ident_ok]|apply dbl_class_first; discriminate]).
+  - now rewrite (digits_idc 2 b) by (assumption || lia).
+  - now rewrite (digits_idc 10 d) by (assumption || lia).
+  - now rewrite (digits_idc 10 d) by (assumption || lia).
 Qed.
 
 Lemma name_shape_nonempty nm : name_shape nm -> nm <> [].
